@@ -186,6 +186,23 @@ fn check(c: &Case, st: &mut Stats) -> CheckResult {
             st.label("target-with-magnitude");
         }
     }
+    // 6. a converted value converted again: the unit requested last is the one displayed
+    // (the multiple-of-target form of an earlier `-> k U` must not survive)
+    let back = eval(&mut ctx, &format!("(xx_q -> {rhs}) -> {}", c.q_unit));
+    let Some(back_text) = back.result_text.clone() else {
+        return Err(Failure::new("conversion-input-fails", format!("no result for `(xx_q -> {rhs}) -> {}`: {}", c.q_unit, back.summary())));
+    };
+    match split_number_unit(&back_text) {
+        Some((n, unit)) if unit == q.unit_display && (rel_close(n, q.value, 1e-5) || (n == 0.0 && q.value == 0.0)) => {
+            st.label("chained-conversion-displayed");
+        }
+        _ => {
+            return Err(Failure::new(
+                "chained-conversion-display-wrong",
+                format!("`(q -> {rhs}) -> {}` is displayed as `{back_text}`, expected `{} {}`; {desc}", c.q_unit, q.value, q.unit_display),
+            ));
+        }
+    }
     st.label(&format!("kind:{}", c.kind));
     if c.shared_factor {
         st.label("shared-factor");
